@@ -941,6 +941,7 @@ func (comp) Extra(p string, tier string, seed int64, scratch string) *core.Extra
 		}
 	}
 	n += reusedUnitBuffer(res, prop, tier, seed, scratch)
+	n += longValues(res, prop, scratch)
 	res.Evaluations, res.Distinct = n, n
 	res.Samples = []string{"LRU capacity=2 MaxBatchSize=3 -> refused", "LRU capacity=2 MaxBatchSize=2 -> built", "FIFOSharded capacity=1 MaxBatchSize=-1 -> built"}
 	for i := range res.Fails {
@@ -948,7 +949,6 @@ func (comp) Extra(p string, tier string, seed int64, scratch string) *core.Extra
 	}
 	return res
 }
-
 
 // reusedUnitBuffer: a caller that keeps one buffer per key, rewrites it in place and calls Put(key, buffer) again. Between the rewrite
 // and the Put nothing is read (the unit caches the caller's slice by reference: C16's domain excludes reading in that window), so on a
@@ -999,6 +999,53 @@ func reusedUnitBuffer(res *core.ExtraResult, prop, tier string, seed int64, scra
 		}
 		_ = u.Close()
 		res.Counts["reused-buffer-rounds"]++
+	}
+	return n
+}
+
+// longValues: values around and beyond 64 KiB (the generated histories stay below a kilobyte): an acknowledged overwrite of a cached
+// key with a long value must be what Get returns next, from the cache or not; after ClearCache too.
+func longValues(res *core.ExtraResult, prop string, scratch string) int {
+	n := 0
+	for kind := 0; kind < 3; kind++ {
+		for pk := 0; pk < 2; pk++ {
+			cc := common.CacheConfig{Name: "verif", Type: cacheTypeOf(kind), Capacity: 8, Shards: 1}
+			if kind == 1 {
+				cc.SizeInBytes = 1 << 22
+			}
+			dc := common.DBConfig{FilePath: filepath.Join(scratch, fmt.Sprintf("long-%d-%d", kind, pk)), Type: dbTypeOf(pk * 2), BatchDelaySeconds: 3600, MaxBatchSize: 2, MaxOpenFiles: 10}
+			u, err := factory.NewStorageUnitFromConf(cc, dc)
+			if err != nil {
+				continue
+			}
+			for _, size := range []int{1024, 65535, 65536, 65537, 1 << 17, 1<<20 + 3} {
+				k := []byte(fmt.Sprintf("key-%d", size))
+				small := []byte("short value")
+				long := bytes.Repeat([]byte{byte(size)}, size)
+				long[0], long[size-1] = 0x01, 0x02
+				_ = u.Put(k, small)
+				if _, gerr := u.Get(k); gerr != nil {
+					res.Fails = append(res.Fails, core.Fail{Property: prop, Step: -1, Msg: fmt.Sprintf("long values (cache=%s db=%s): Get after Put(%s, short) fails: %v", cc.Type, dc.Type, k, gerr)})
+				}
+				if perr := u.Put(k, long); perr != nil {
+					continue
+				}
+				n++
+				v, gerr := u.Get(k)
+				if gerr != nil || !bytes.Equal(v, long) {
+					res.Fails = append(res.Fails, core.Fail{Property: prop, Step: -1,
+						Msg: fmt.Sprintf("long values (cache=%s db=%s): after the acknowledged Put(%s, %d bytes) Get returns %d bytes (err %v): not the last acknowledged value", cc.Type, dc.Type, k, size, len(v), gerr)})
+				}
+				u.ClearCache()
+				v, gerr = u.Get(k)
+				if gerr != nil || !bytes.Equal(v, long) {
+					res.Fails = append(res.Fails, core.Fail{Property: prop, Step: -1,
+						Msg: fmt.Sprintf("long values (cache=%s db=%s): after ClearCache Get(%s) returns %d bytes (err %v), the persister should hold the %d-byte value", cc.Type, dc.Type, k, len(v), gerr, size)})
+				}
+			}
+			_ = u.Close()
+			res.Counts["long-value-units"]++
+		}
 	}
 	return n
 }
